@@ -217,6 +217,7 @@ Proof.
   - split; [exact J1|]. split; [exact J2|]. intros s Es. discriminate Es.
   - unfold SetBodyStream. split; [exact J1|]. split; [cbn [r_hd]; now rewrite mustSkip_SCL|]. cbn [r_stream r_hd]. intros s' _. now apply J3_SCL.
   - split; [reflexivity|]. cbn [CtxError r_hd r_stream]. split; [exact Hp|]. intros s Es. discriminate Es.
+  - split; [reflexivity|]. split; [reflexivity|]. intros s Es. discriminate Es.
 Qed.
 
 Lemma J_run prog : forall R, Rinv R -> J R -> Forall hop_ok prog -> J (hrun R prog).
